@@ -7,6 +7,7 @@ import (
 
 	"github.com/Masterminds/semver/v3"
 
+	"github.com/go-task/task/v3"
 	"github.com/go-task/task/v3/internal/flags"
 	zz "github.com/go-task/task/v3/internal/zzsym"
 	"github.com/go-task/task/v3/taskfile/ast"
@@ -224,6 +225,29 @@ func ZZ_C12_QueryFlagsMeanDry() {
 		zz.Assert(len(zzCommands) == 0, "query-runs-no-command")
 	}
 	flags.Dry, flags.Status, flags.Force, flags.Summary = false, false, false, false
+	if zz.Twin() {
+		zz.Assert(false, "twin")
+	}
+	zz.Reach("end")
+}
+
+// ZZ_C05_StateDirFollowsTaskfile: the fingerprint state of a project is kept in one place,
+// decided by where the Taskfile is and by TASK_TEMP_DIR, not by the directory Task was started
+// in (the Taskfile is found by walking up): otherwise a run from a sub directory right after
+// a successful run from the root would execute the commands again. Executor.Setup() from
+// source, with the root node found in /wd whatever the invocation directory.
+func ZZ_C05_StateDirFollowsTaskfile() {
+	inv := []string{"", "/wd", "/wd/sub", "/wd/sub/deeper"}[zz.Choose("invocation_dir", 4)]
+	td := []string{"", "tmp", "/abs"}[zz.Choose("TASK_TEMP_DIR", 3)]
+	zzEnvVars = map[string]string{"TASK_TEMP_DIR": td}
+	zzTF = &ast.Taskfile{Version: semver.MustParse("3"), Vars: ast.NewVars(), Env: ast.NewVars(), Tasks: ast.NewTasks()}
+	zzTF.Tasks.Set("show", zzNewTask("show", &ast.Cmd{Cmd: "probe a"}))
+	e := task.NewExecutor(task.WithDir(inv), task.WithSilent(true))
+	err := e.Setup()
+	zzEnvVars = nil
+	zz.Assert(err == nil, "setup-succeeds")
+	want := map[string]string{"": "/wd/.task", "tmp": "/wd/tmp", "/abs": "/abs/wd"}[td]
+	zz.Assert(e.TempDir.Fingerprint == want, "fingerprint-state-lives-with-the-taskfile")
 	if zz.Twin() {
 		zz.Assert(false, "twin")
 	}
